@@ -22,6 +22,13 @@ func InitSequence(envs commservices.Environments) (reader io.Reader, err error) 
 	if envs == nil {
 		return strings.NewReader(initCode), nil
 	}
+	if all := envs.All(); len(all) != 0 {
+		values := make([]string, 0, len(all))
+		for _, value := range all {
+			values = append(values, value)
+		}
+		eofTag = varutil.HeredocTag(values...)
+	}
 	for key, value := range envs.All() {
 		initCode += key + "=$(cat <<'" + eofTag + "'\n" + value + "\n" + eofTag + "\n)\n"
 		initCode += "export " + key + "\n"
